@@ -51,6 +51,8 @@ CFGS = {
     "default": {"elements": DEFAULT_ELEMENTS, "pseudo": DEFAULT_PSEUDO, "repl": {}, "surface": "#", "grain": "GRAIN"},
     "default-G": {"elements": DEFAULT_ELEMENTS, "pseudo": DEFAULT_PSEUDO, "repl": {}, "surface": "G", "grain": "GRAIN"},
     "upper": {"elements": UPPER_ELEMENTS, "pseudo": UPPER_PSEUDO, "repl": UPPER_REPL, "surface": "#", "grain": "GRAIN"},
+    # a user list of elements and *no* pseudo-elements: the default labels (o, p, m, CR, X, ...) are not configured
+    "elements-only": {"elements": ["e", "H", "D", "He", "C", "O", "Si"], "pseudo": [], "repl": {}, "surface": "#", "grain": "GRAIN"},
 }
 
 
@@ -78,7 +80,7 @@ def gen_name(rng, cfgname):
         el = rng.choice(atoms)
         cnt = rng.choice([1, 1, 1, 2, 2, 3, 4, 6, 10, 12])
         toks.append((el, cnt))
-    label = rng.choice(["", "", "", "", "o", "p", "m", "c-", "l-"]) if cfgname != "upper" else ""   # isomer labels contain a dash
+    label = rng.choice(["", "", "", "", "o", "p", "m", "c-", "l-"]) if "o" in cfg["pseudo"] else ""   # isomer labels contain a dash
     body = label + "".join(f"{e}{c if c > 1 else ''}" for e, c in toks)
     charge = rng.choice([0, 0, 0, 1, 1, -1, 2, 4, -2])
     ice = rng.random() < 0.25
@@ -130,6 +132,9 @@ def gen_name(rng, cfgname):
 def gen_malformed(rng, cfgname):
     cfg = CFGS[cfgname]
     base, _ = gen_name(rng, cfgname)
+    if cfgname == "elements-only" and rng.random() < 0.5:
+        # labels and markers of the *default* pseudo-element list are not symbols of this configuration
+        return rng.choice(["oH2", "pH2+", "mH2", "CRP", "HeX", "XH", "CRPHOT", "oH2D+", "H2m", "pD2"])
     bad = rng.choice(["x", "q", "?", "(", "z", "y", "_", "%"])
     if cfgname == "upper":
         bad = rng.choice(["x", "?", "(", "a", "he"])
@@ -175,7 +180,8 @@ def run_c08(argv):
                 truths.append(t)
         # fixed corpus: the examples of the property statement
         corpus = ["Si", "He", "SiO", "HeH+", "Mg+", "MgH", "Fe+", "FeH", "oH2D+", "#CO", "c-C3H2", "l-C3H", "H2*", "CO2", "NaCl", "SiS"] \
-            if cfgname == "default" else (["GCO", "GH2O", "GRAIN0", "GCH4"] if cfgname == "default-G" else ["HE+", "MGH", "SIO", "HCL", "#SIH4", "E-"])
+            if cfgname == "default" else (["GCO", "GH2O", "GRAIN0", "GCH4"] if cfgname == "default-G" else
+                                          (["HE+", "MGH", "SIO", "HCL", "#SIH4", "E-"] if cfgname == "upper" else ["SiO", "HeH+", "#CO", "D2"]))
         names = corpus + names
         truths = [None] * len(corpus) + truths
         impl = [impl_species(cfgname, n) for n in names]
@@ -260,6 +266,8 @@ NETS = {
     "labels": (["oH2", "pH2", "oH2D+", "pH2D+", "mD3+", "H", "D", "e-", "H2"], "default"),
     "ice": (["CO", "#CO", "H2O", "#H2O", "#CH4", "CH4", "H", "#H", "GRAIN0", "GRAIN-", "e-"], "default"),
     "electron-twice": (["e-", "E", "H+", "H", "He+", "He"], "default"),
+    "electron-E": (["E", "H+", "H", "He+", "He", "H2", "H2+", "D", "HD"], "default"),          # the KROME spelling alone
+    "electron-E-": (["E-", "H+", "H", "C+", "C", "CO"], "default"),
     "upper": (["HE", "HE+", "MG", "MG+", "SI", "SIO", "H", "E-", "CL", "HCL", "#SIO"], "upper"),
     "upper-ions": (["S", "S+", "S++", "SI", "SI+", "SIO", "H", "HE", "HE+", "E-", "C", "C+", "CL", "CL+", "MG", "MG+", "HS", "HS+", "CS"], "upper"),
     "excited": (["H2", "H2*", "H", "c-C3H2", "l-C3H", "C", "e-"], "default"),     # F9
@@ -312,6 +320,8 @@ def run_c09(argv):
             n, t = gen_name(rng, cfgname)
             if t is not None and not CFGS[cfgname]["grain"] in n and not t["surface"]:
                 pool.append(n)
+        if rng.random() < 0.7:
+            pool.append(rng.choice(["e-", "E", "E-"] if cfgname != "upper" else ["E", "E-"]))
         nets[f"random{k}"] = (sorted(set(pool)), cfgname)
     for label, (names, cfgname) in nets.items():
         try:
@@ -390,6 +400,13 @@ def run_c09(argv):
                 if ref_alias is not None and ["IDX_" + a for a in amac] != ref_alias:
                     chk.violation({"kind": "artefacts-differ", "pair": "macros/enzo"}, "per-species table of the enzo patch lists other species/order",
                                   input={"network": label, "enzo": amac[:20], "macros": ref_alias[:20]})
+                # the field count of the patch: every species of the network or of Grackle once, minus the electron
+                m = re.search(r"^#define ENZO_NSPECIES\s+(-?\d+)", txt, re.M)
+                union = {canon(sp.name) for sp in species} | {canon(x) for x in EnzoPatch.grackle_species_name}
+                if m and int(m.group(1)) != len(union) - 1:
+                    chk.violation({"kind": "enzo-field-count", "net": label if not label.startswith("random") else "random"},
+                                  f"ENZO_NSPECIES = {m.group(1)}, but the network and Grackle together have {len(union)} distinct species "
+                                  f"(one of them the electron)", input={"network": label, "species": [sp.name for sp in species]})
                 chk.count((label, "enzo"), nontrivial=True)
             except Exception as e:
                 chk.hist["enzo-refused:" + type(e).__name__] += 1
